@@ -1,10 +1,68 @@
 use crate::Prop;
 
+pub mod c01;
+pub mod c02;
+pub mod c03;
+pub mod c04;
+pub mod c05;
+pub mod c06;
+pub mod c07;
+pub mod c08;
+pub mod c09;
+pub mod c10;
+pub mod c11;
+pub mod c12;
+pub mod c13;
+pub mod c14;
+pub mod c15;
+pub mod c16;
+pub mod c17;
+pub mod c18;
+pub mod c19;
+pub mod c20;
+pub mod c21;
+pub mod c22;
+pub mod c23;
+pub mod c24;
+pub mod c25;
 pub mod c26;
+pub mod c27;
+pub mod c28;
+pub mod c29;
+pub mod c30;
 
 pub fn lookup(id: &str) -> Option<&'static dyn Prop> {
   match id {
+    "C01" => Some(&c01::P),
+    "C02" => Some(&c02::P),
+    "C03" => Some(&c03::P),
+    "C04" => Some(&c04::P),
+    "C05" => Some(&c05::P),
+    "C06" => Some(&c06::P),
+    "C07" => Some(&c07::P),
+    "C08" => Some(&c08::P),
+    "C09" => Some(&c09::P),
+    "C10" => Some(&c10::P),
+    "C11" => Some(&c11::P),
+    "C12" => Some(&c12::P),
+    "C13" => Some(&c13::P),
+    "C14" => Some(&c14::P),
+    "C15" => Some(&c15::P),
+    "C16" => Some(&c16::P),
+    "C17" => Some(&c17::P),
+    "C18" => Some(&c18::P),
+    "C19" => Some(&c19::P),
+    "C20" => Some(&c20::P),
+    "C21" => Some(&c21::P),
+    "C22" => Some(&c22::P),
+    "C23" => Some(&c23::P),
+    "C24" => Some(&c24::P),
+    "C25" => Some(&c25::P),
     "C26" => Some(&c26::P),
+    "C27" => Some(&c27::P),
+    "C28" => Some(&c28::P),
+    "C29" => Some(&c29::P),
+    "C30" => Some(&c30::P),
     _ => None,
   }
 }
